@@ -127,14 +127,9 @@ class Env:
             p = ODLParser(grammar=g, decoder=ODLDecoder(grammar=g, **dkw), **ckw)
         elif d == "PDS3":
             g = PDSGrammar()
-            try:
-                dec = PDSLabelDecoder(grammar=g, **dkw)
-            except TypeError as e:
-                # the constructor has no real_cls parameter: reported separately; continue through the
-                # attribute every decoder reads, so that the remaining checks still say something
-                self.notes.append("PDSLabelDecoder(real_cls=...) -> TypeError: " + str(e))
-                dec = PDSLabelDecoder(grammar=g, quantity_cls=self.qcls)
-                dec.real_cls = self.real_cls
+            # constructed like every other decoder; a constructor that rejects real_cls shows up as a
+            # loads-iff violation (substitutes raise TypeError, defaults load)
+            dec = PDSLabelDecoder(grammar=g, **dkw)
             p = ODLParser(grammar=g, decoder=dec, **ckw)
         elif d == "Omni":
             g = OmniGrammar()
@@ -338,8 +333,8 @@ def check_label(text, tree, dialects, combos, profile=""):
         dres = attempt(denv, text)
         if dialect == "Omni-loads-kwargs":
             # pvl.loads(text) vs pvl.loads(text, decoder=OmniDecoder()): supplying the (default) decoder object
-            # itself must change nothing; reported once, and the explicit form is the baseline below so that
-            # the substitute checks are not drowned by it
+            # itself must change nothing (OmniDecoder() defaults to OmniGrammar()); the baseline of the
+            # substitute checks is plain pvl.loads(text) unless this very check fails
             eenv = Env(dialect, "float", "Quantity", "default")
             eenv.explicit_decoder = True
             eres = attempt(eenv, text)
@@ -359,7 +354,8 @@ def check_label(text, tree, dialects, combos, profile=""):
                               "key": f"C18:Omni-loads-kwargs:explicit-OmniDecoder()-changes-{kind}",
                               "got": "pvl.loads(text, decoder=OmniDecoder()) vs pvl.loads(text): " + got,
                               "want": "equal"})
-            denv, dres = eenv, eres
+                # keep the substitute checks readable: compare them with the explicit-decoder form
+                denv, dres = eenv, eres
         for (real, quantity, containers) in combos:
             env = Env(dialect, real, quantity, containers)
             env.explicit_decoder = denv.explicit_decoder
@@ -372,9 +368,6 @@ def check_label(text, tree, dialects, combos, profile=""):
             def fail(key, got, want, aspect):
                 fails.append(dict(rec, key=key, got=str(got)[:240], want=str(want)[:160], aspect=aspect))
 
-            if dialect == "PDS3" and env.notes:
-                fail("C18:PDS3:PDSLabelDecoder-constructor-rejects-real_cls", env.notes[0],
-                     "PDSLabelDecoder accepts real_cls like every other decoder", "constructor")
             if res[0] != dres[0] or (res[0] == "raise" and res[1] != dres[1]):
                 a = res[1] if res[0] == "raise" else "loads"
                 b = dres[1] if dres[0] == "raise" else "loads"
@@ -519,8 +512,7 @@ def word_section(ctx):
     for dialect in DIALECTS:
         for w in WORDS:
             text = f"a = {w}\nEND"
-            denv = Env(dialect, "float", "Quantity", "default")
-            denv.explicit_decoder = True       # baseline of the kwargs route: decoder=OmniDecoder()
+            denv = Env(dialect, "float", "Quantity", "default")    # baseline: the plain default loader
             dres = attempt(denv, text)
             for real in REAL_CLASSES[1:]:
                 env = Env(dialect, real, "Quantity", "default")
@@ -570,8 +562,6 @@ def sections(ctx):
     s.samples = [{"text": FIXED[9][0], "dialect": "ODL", "real": "Decimal", "quantity": "MyQ", "containers": "new"},
                  {"text": labels[len(FIXED)][0][:160], "dialect": "Omni", "real": "RecReal", "quantity": "QT",
                   "containers": "subclass"}]
-    s.notes.append("PDSLabelDecoder.__init__ has no real_cls parameter: the PDS3 rows construct it without and set "
-                   "decoder.real_cls afterwards (the constructor gap itself is reported as a violation)")
     s.seconds = time.time() - t0
     return [s, word_section(ctx)]
 
@@ -580,7 +570,6 @@ def replay(data):
     if data.get("check") == "word":
         text = f"a = {data['word']}\nEND"
         denv = Env(data["dialect"], "float", "Quantity", "default")
-        denv.explicit_decoder = True
         d = attempt(denv, text)
         r = attempt(Env(data["dialect"], data["real"], "Quantity", "default"), text)
 
